@@ -141,6 +141,8 @@ def check(repo, col, tier):
     _sparse(repo, col)
     _matrix(repo, col)
     _common(repo, col)
+    from . import c12
+    c12.cell_offsets_definition(repo, col, "R-C20-roles")
 
 
 def _append_call(ex: Expander):
@@ -289,18 +291,60 @@ def _case_lengths(expr: ast.AST, listname: str):
     return None
 
 
+def _case_lengths_t(t: T):
+    """Length of the term `hstack(X) if <X non-empty> else []` for len(X) = n in 0..3, or None if not derivable."""
+    STACK = ("hstack", "concatenate", "array", "asarray")
+
+    def length(branch, n):
+        if branch.op in ("list", "tuple") and not branch.args:
+            return 0
+        if branch.op == "mcall" and branch.name in STACK:
+            return n if n > 0 else "raises"
+        return None
+
+    def holds(cnd, n):
+        neg = False
+        while cnd.op == "not" or (cnd.op == "unary" and cnd.name == "Not"):
+            neg = not neg
+            cnd = cnd.args[0]
+        r = None
+        if cnd.op == "cmp" and len(cnd.args) == 2 and cnd.args[0].op == "call" and cnd.args[0].name == "len" and \
+                cnd.args[1].op == "const" and isinstance(cnd.args[1].name, int):
+            k = cnd.args[1].name
+            r = {">": n > k, ">=": n >= k, "!=": n != k, "<": n < k, "<=": n <= k, "==": n == k}.get(cnd.name)
+        elif cnd.op in ("list", "listacc", "comp", "phi", "carried") or T.find(cnd, lambda x: x.op in ("listacc", "comp")) is not None:
+            r = n > 0  # truthiness of the list itself
+        if r is None:
+            return None
+        return (not r) if neg else r
+
+    if t.op == "ifexp":
+        out = {}
+        for n in range(4):
+            h = holds(t.args[0], n)
+            if h is None:
+                return None
+            out[n] = length(t.args[1] if h else t.args[2], n)
+        return out
+    if t.op == "mcall" and t.name in ("hstack", "concatenate"):
+        return {0: "raises", 1: 1, 2: 2, 3: 3}
+    return None
+
+
 def _sparse(repo, col):
     fi = repo.func(CF, "sparse_connect")
     ex = idx.expander(repo, fi)
     c = _append_call(ex)
     pre_param, post_param = fi.params[0], fi.params[1]
-    # length of the post index array per number of drawn connections
-    asg = [n for n in walk_no_nested(fi.node) if isinstance(n, ast.Assign) and isinstance(n.targets[0], ast.Name)
-           and n.targets[0].id == "global_post_indices"]
-    stack = next((a for a in asg if "hstack" in unparse(a.value) or "concatenate" in unparse(a.value)), None)
-    if stack is None:
-        raise AnalysisError("sparse_connect: stacking of sampled post indices vanished")
-    lens = _case_lengths(stack.value, "global_post_indices")
+    # length of the post index array per number of drawn connections, on the TERM handed to `.loc[...]` for the post rows
+    # (an if/else statement and a conditional expression are the same term; the list may be a comprehension or filled
+    # by append in a loop)
+    post_t = ex.term(c.args[1])
+    loc = T.find(post_t, lambda x: x.op == "sub" and x.args[0].op == "attr" and x.args[0].name == "loc")
+    if loc is None:
+        raise AnalysisError("sparse_connect: the post rows are no longer looked up with .loc[...]")
+    lens = _case_lengths_t(loc.args[1])
+    stack = loc.node or c
     if lens is None:
         col.unk("R-C20-length", fi, stack, "length of the stacked post indices is not derivable")
     else:
@@ -335,13 +379,14 @@ def _sparse(repo, col):
     col.check(ok, "R-C20-roles", fi, "sparse_connect: postsynaptic site sampled inside the drawn post cell",
               "sample_comp(post_view.scope('global').cell(c)) with c drawn from the post view's cells",
               f"post rows are {post.short()}", node=c)
-    # same permutation on both ends
-    sorts = [n for n in walk_no_nested(fi.node) if isinstance(n, ast.Assign) and isinstance(n.value, ast.Subscript)
-             and unparse(n.value.slice) == "sorting"]
-    names = sorted(unparse(n.targets[0]) for n in sorts)
-    col.check(len(sorts) in (0, 2) and (not sorts or all(unparse(n.value.value) == unparse(n.targets[0]) for n in sorts)),
-              "R-C20-roles", fi, "sparse_connect: pre and post cell draws are permuted together",
-              f"{names}", f"the sorting permutation is applied to {names} only", node=sorts[0] if sorts else fi.node)
+    # same permutation on both ends: if the drawn pre cells are reordered, the drawn post cells are reordered with the
+    # same index array
+    pre_perm = T.find(pre, lambda x: x.op == "mcall" and x.name == "argsort")
+    post_perm = T.find(post, lambda x: x.op == "mcall" and x.name == "argsort")
+    same = (pre_perm is None and post_perm is None) or (pre_perm is not None and post_perm is not None and pre_perm.key() == post_perm.key())
+    col.check(same, "R-C20-roles", fi, "sparse_connect: pre and post cell draws are permuted together",
+              "both indexed by the same argsort", "the sorting permutation is applied to one end only: pre and post cells of a connection are "
+              "no longer the pair that was drawn", node=c)
 
 
 def _stmt_of(fn, node):
@@ -522,13 +567,29 @@ def _common(repo, col):
     # _append_multiple_synapses: column derived from pre_nodes is the pre column
     fi = repo.method("Network", "_append_multiple_synapses")
     ex = idx.expander(repo, fi)
-    st = [s for s in ex.stores if s.kind == "attr" and s.key.name == "columns"]
+    from .c11 import _str_parts
     seen = {}
-    for s in st:
-        src = T.find(s.base, lambda x: x.op == "param")
-        lst = s.value
-        if lst.op == "list" and lst.args and lst.args[0].op == "const" and src is not None:
-            seen[src.name] = lst.args[0].name
+
+    def facts(e_, binding):
+        for s_ in e_.stores:
+            if s_.kind == "attr" and s_.key.name == "columns":
+                base = idx.subst(s_.base, binding) if binding else s_.base
+                val = idx.subst(s_.value, binding) if binding else s_.value
+                src = T.find(base, lambda x: x.op == "param" and x.name in fi.params)
+                if val.op == "list" and len(val.args) == 1 and src is not None:
+                    parts = _str_parts(val.args[0])
+                    if len(parts) == 1 and isinstance(parts[0], str):
+                        seen[src.name] = parts[0]
+
+    facts(ex, None)
+    # a local helper that is applied to pre_nodes and to post_nodes: one set of facts per call site
+    for cnode in ex.calls:
+        if isinstance(cnode.func, ast.Name) and cnode.func.id in ex.nested:
+            ne = ex.nested[cnode.func.id]
+            t = ex.term(cnode)
+            m = idx._bind(ne.fi.node, list(t.args), t.kw)
+            if m is not None:
+                facts(ne, m)
     ok = seen.get(fi.params[1]) == "pre_global_comp_index" and seen.get(fi.params[2]) == "post_global_comp_index"
     col.check(ok, "R-C20-roles", fi, "_append_multiple_synapses: pre_nodes feed the pre column, post_nodes the post column",
               f"{seen}", f"column naming is {seen}", node=fi.node)
